@@ -28,6 +28,9 @@ def c04_health(op, impl, model):
     if i[6] == 6009 and m[6] == 0 and m[0] - m[1] > (1 << 20):
         return (f"C04 the initial-margin gate REJECTS a portfolio whose independently computed initial health is positive "
                 f"(recomputed: assets {m[0]} >= liabilities {m[1]}): {op}")
+    if i[6] == 0 and m[6] not in (0, 6009, 6029):
+        return (f"C04 the initial-margin gate PASSES a portfolio whose initial health cannot be established from the presented oracle "
+                f"data (independent evaluation fails with error {m[6]}: a debt price is stale / unauthentic / too uncertain): {op}")
     if i[6] == 0 and m[6] == 6029:
         return f"C04 the gate passes a portfolio in which an isolated-tier debt is not the only debt: {op}"
     return None
@@ -58,6 +61,19 @@ def c07_health(op, impl, model):
     return None
 
 
+def c07_soc(op, impl, model):
+    """b.soc <bank> <loss>  =>  ok <new asset share value> <kill>"""
+    if not op.startswith("b.soc"):
+        return None
+    i = _nums(impl)
+    if i and len(i) >= 2 and i[-2] == 0 and i[-1] == 0:
+        return (f"C07 socialize_loss leaves the depositors' share value at zero without shutting the bank "
+                f"(a bank whose deposits are fully consumed must be permanently shut): {op}")
+    if i and len(i) >= 2 and i[-2] < 0:
+        return f"C07 socialize_loss leaves a negative share value: {op}"
+    return None
+
+
 def c09_health(op, impl, model):
     """an assessment that the model says must FAIL on an unusable oracle (stale / unauthentic / wrong account /
     confidence too wide) completes in the implementation"""
@@ -75,11 +91,33 @@ def c09_health(op, impl, model):
     return None
 
 
+def c16_foc(op, impl, model):
+    """acct.foc <16 slots x 5> bank tag now  =>  ok <16 slots x 5: active bank tag a l> <slot bank> <slot tag>"""
+    if not op.startswith("acct.foc"):
+        return None
+    i = _nums(impl)
+    if not i or len(i) < 82:
+        return None
+    slots = [i[k * 5:k * 5 + 5] for k in range(16)]
+    active = [x for x in slots if x[0] == 1]
+    integ = [x for x in active if x[2] in (3, 4, 5)]  # ASSET_TAG_KAMINO / DRIFT / SOLEND
+    if len(integ) > 8:
+        return f"C16 an account holds {len(integ)} integration positions (Kamino/Drift/Solend) after a successful find_or_create (limit 8): {op}"
+    banks = [x[1] for x in active]
+    if len(set(banks)) != len(banks):
+        return f"C16 two active positions for one bank after a successful find_or_create: {op}"
+    tags = {x[2] for x in active}
+    if 2 in tags and (tags & {0, 3, 4, 5}):
+        pass  # mixing is judged by validate_asset_tags (acct.tags), not by find_or_create
+    return None
+
+
 WITNESS = {
     "C04": [c04_health],
     "C05": [c05_health],
-    "C07": [c07_health],
+    "C07": [c07_health, c07_soc],
     "C09": [c09_health],
+    "C16": [c16_foc],
 }
 
 
